@@ -41,7 +41,8 @@
 (*  Panic             code under test panicked                             *)
 (*                                                                         *)
 (* Deviations that are known findings are printed as KNOWN lines, not      *)
-(* flagged: StoppedPendingAcrossResetAck, StoppedWriterBlockedBySendWindow *)
+(* flagged: StoppedPendingAcrossResetAck, StoppedWriterBlockedBySendWindow, *)
+(* StreamCreditNotQueuedByStop                                            *)
 (* (see KnownStopped / KnownStoppedWriter).                                *)
 (***************************************************************************)
 EXTENDS Naturals, Integers, Sequences, FiniteSets, TLC, Json, IOUtils
@@ -76,6 +77,12 @@ Rejected0(cs) == m.cfg.ticket /\ ~m.cfg.eaccept /\ cs \in m.early
 Purge(f, c, sid) == [x \in {y \in DOMAIN f : ~(y[1] = c /\ y[2] = sid)} |-> f[x]]
 PurgeSet(S, c, sid) == {y \in S : ~(y[1] = c /\ y[2] = sid)}
 
+\* The writer of direction d ended it for good: an explicit reset(), a finish() that certainly took effect, or
+\* the drop of its SendStream ("dropping the last handle to a stream implicitly finishes it", and resets it
+\* when the peer has stopped it).  At a final quiescent point the FIN / RESET_STREAM has been delivered and
+\* acknowledged.
+WriterEnded(d) == d \in m.sgone \/ d \in m.rst \/ d \in m.finEff
+
 ReadOps == {"read", "read_chunk", "read_chunks", "read_to_end"}
 WriteOps == {"write", "write_all", "write_chunks"}
 OpenOps == {"open_uni", "open_bi"}
@@ -87,7 +94,7 @@ Empty == [cfg |-> [lossless |-> TRUE, ordered |-> TRUE, dup |-> FALSE, idle |-> 
           clones |-> <<>>, selfw |-> {}, kinds |-> <<>>, pend |-> <<>>, held |-> <<>>,
           wlo |-> <<>>, whi |-> <<>>, fin |-> {}, rst |-> {}, stp |-> <<>>, cursor |-> <<>>,
           rend |-> {}, rdirty |-> {}, opened |-> <<>>, accepted |-> <<>>, used |-> {},
-          closedBy |-> <<>>, syncClosed |-> {}, lostSeen |-> {}, early |-> {}, sgone |-> {}, finEff |-> {}, conns |-> {}, epClosed |-> {}, refused |-> {},
+          closedBy |-> <<>>, syncClosed |-> {}, lostSeen |-> {}, early |-> {}, sgone |-> {}, finEff |-> {}, lateStop |-> {}, conns |-> {}, epClosed |-> {}, refused |-> {},
           dsent |-> <<>>, drecv |-> <<>>, phase |-> "run"]
 
 TInit == l = 1 /\ bad = {} /\ cur = <<0>> /\ m = Empty
@@ -322,7 +329,10 @@ Sync ==
             /\ m' = IF e.res = "ok" THEN [m EXCEPT !.rst = @ \cup {dw}, !.used = @ \cup {<<c, e.sid>>}] ELSE m
             /\ bad' = bad
        [] e.op = "stop" ->
-            /\ m' = IF e.res = "ok" /\ dr \notin DOMAIN m.stp THEN [m EXCEPT !.stp = Set(@, dr, e.n)] ELSE m
+            \* lateStop: the writer had already ended the stream when it was stopped, see KnownOpen
+            /\ m' = IF e.res = "ok" /\ dr \notin DOMAIN m.stp
+                      THEN [m EXCEPT !.stp = Set(@, dr, e.n), !.lateStop = IF WriterEnded(dr) THEN @ \cup {dr} ELSE @]
+                      ELSE m
             /\ bad' = bad
        [] e.op = "close" ->
             /\ m' = CloseSync(m, c, s, e.n)
@@ -363,6 +373,8 @@ HandleDropped ==
                          !.used = IF e.kind = "send" THEN @ \cup {<<c, e.sid>>} ELSE @,
                          !.sgone = IF e.kind = "send" THEN @ \cup {dw} ELSE @,
                          !.stp = IF e.kind = "recv" /\ dr \notin m.rend /\ dr \notin DOMAIN @ THEN Set(@, dr, 0) ELSE @,
+                         !.lateStop = IF e.kind = "recv" /\ dr \notin m.rend /\ dr \notin DOMAIN m.stp /\ WriterEnded(dr)
+                                        THEN @ \cup {dr} ELSE @,
                          !.held = IF e.task >= 0 THEN Set(@, e.task, h) ELSE @]
          m1 == IF e.kind \in {"send", "recv", "conn", "connecting"} /\ e.left = 0 THEN CloseSync(m0, c, s, 0) ELSE m0
      IN
@@ -391,11 +403,6 @@ PendRead(d) == \E t \in DOMAIN m.pend : m.pend[t].op \in ReadOps /\ <<m.pend[t].
 PendWrite(d) == \E t \in DOMAIN m.pend : m.pend[t].op \in WriteOps /\ <<m.pend[t].c, m.pend[t].sid, m.pend[t].side>> = d
 
 \* every stream this side opened in direction class dir has run its full course (so the peer issued new credit)
-\* The writer of direction d ended it for good: an explicit reset(), a finish() that certainly took effect, or
-\* the drop of its SendStream ("dropping the last handle to a stream implicitly finishes it", and resets it
-\* when the peer has stopped it).  At a final quiescent point the FIN / RESET_STREAM has been delivered and
-\* acknowledged.
-WriterEnded(d) == d \in m.sgone \/ d \in m.rst \/ d \in m.finEff
 \* The reading side of direction d has disposed of the stream: its application saw the end (fin or reset), or
 \* it stopped the stream (explicitly or by dropping the RecvStream) and the writer ended it
 RecvRetired(d) == d \in m.rend \/ (d \in DOMAIN m.stp /\ WriterEnded(d))
@@ -406,6 +413,10 @@ AllClosed(c, s, dir) ==
      /\ RecvRetired(<<c, sid, s>>)
      \* bidirectional: the peer's sending half is freed once it has ended and everything is acknowledged
      /\ dir = 1 \/ <<c, sid, 1 - s>> \in m.rend \/ WriterEnded(<<c, sid, 1 - s>>)
+
+\* one of the streams was stopped by its reader after its writer had ended it, see KnownOpen
+LateStopped(c, s, dir) ==
+  \E i \in 0..(At(m.opened, <<c, s, dir>>, 0) - 1) : <<c, SidOf(s, dir, i), s>> \in m.lateStop
 
 \* bytes handed to write() by side s of connection c
 RECURSIVE SumOver(_, _)
@@ -436,6 +447,7 @@ DataCond(p) ==
                            /\ Index(u[2]) >= At(m.accepted, <<c, s, OpDir(p.op)>>, 0)
     [] p.op \in OpenOps ->
          (IF p.op = "open_uni" THEN m.cfg.maxuni ELSE m.cfg.maxbi) > 0 /\ AllClosed(c, s, OpDir(p.op))
+           /\ ~LateStopped(c, s, OpDir(p.op))
     \* finished and (nothing being in flight) fully acknowledged, or stopped by the peer.  A stream that was
     \* reset locally is excluded: see KnownStopped below
     [] p.op = "stopped" -> dw \notin m.rst /\ (dw \in m.fin \/ dw \in DOMAIN m.stp)
@@ -473,6 +485,15 @@ KnownStoppedWriter(p) ==
   /\ p.op \in WriteOps /\ ~m.cfg.idle /\ Alive(p.c)
   /\ <<p.c, p.sid, p.side>> \in DOMAIN m.stp /\ Tight(p.c, p.side)
 
+\* KNOWN FINDING (C18): RecvStream::stop() (also the implicit one of a dropped RecvStream) on a stream whose end
+\* has already arrived (FIN or RESET_STREAM received, not yet read) frees the stream at once but does not queue
+\* MAX_STREAMS (proto RecvStream::stop never calls queue_max_stream_id); the credit only leaves with the next
+\* packet the connection happens to process.  With nothing else in flight a peer blocked in open_uni()/open_bi()
+\* waits for ever.
+KnownOpen(p) ==
+  /\ p.op \in OpenOps /\ ~m.cfg.idle /\ Alive(p.c)
+  /\ AllClosed(p.c, p.side, OpDir(p.op)) /\ LateStopped(p.c, p.side, OpDir(p.op))
+
 LostName(op) ==
   CASE op \in ReadOps -> "LostWakeup_read" [] op \in WriteOps -> "LostWakeup_write"
     [] op \in AcceptOps -> "LostWakeup_accept" [] op \in OpenOps -> "LostWakeup_open"
@@ -490,7 +511,9 @@ Quiescent ==
          known == (IF final /\ \E t \in DOMAIN m.pend : KnownStopped(m.pend[t])
                      THEN {"StoppedPendingAcrossResetAck"} ELSE {})
                   \cup (IF final /\ \E t \in DOMAIN m.pend : KnownStoppedWriter(m.pend[t]) /\ ~Enabled(m.pend[t])
-                          THEN {"StoppedWriterBlockedBySendWindow"} ELSE {}) IN
+                          THEN {"StoppedWriterBlockedBySendWindow"} ELSE {})
+                  \cup (IF final /\ \E t \in DOMAIN m.pend : KnownOpen(m.pend[t]) /\ ~Enabled(m.pend[t])
+                          THEN {"StreamCreditNotQueuedByStop"} ELSE {}) IN
      IF known = {} THEN TRUE ELSE PrintT(<<"KNOWN", known, "line", l, "run", cur>>)
   /\ UNCHANGED <<cur, m>> /\ l' = l + 1
 
